@@ -53,6 +53,8 @@ int64_t addTrafficOp(Gen& g, int node, int nodeType, bool allowSeg, int maxSeg)
             s.set("len", r.chance(1, 8) ? 0 : r.range(1, 60));
             if (r.chance(1, 6))
                 s.set("trail", r.range(1, 40)).set("tfill", static_cast<int64_t>(r.below(2)));
+            else if (r.chance(1, 12))
+                s.set("trail", r.range(30, 200)).set("tfill", 2).set("tpad", r.range(0, 80));  // well-formed messages behind the segment
             segs.push_back(std::move(s));
         }
         Item& op = g.addOp(OP_RAWSEG, node, nseg);
